@@ -111,6 +111,44 @@ Fixpoint gmany (n : nat) (g : G (list case)) : G (list case) :=
   | S n' => do l <- g; do r <- gmany n' g; gret (l ++ r)
   end.
 
+(* single messages through the message-level entry points *)
+Definition gcase_message : G (list case) :=
+  do pl <- gpayload; let '(ct, msgs, pad) := pl in do suf <- gsuffix;
+  match msgs with
+  | m :: _ =>
+      let one := enc_msg m in
+      gret (match m with
+            | MChangeCipherSpec => [mk_case "parse_tls_message_changecipherspec" [] (one ++ suf) sx_msg (Some (suf, m))]
+            | MAlert _ _ => [mk_case "parse_tls_message_alert" [] (one ++ suf) sx_msg (Some (suf, m))]
+            | MHandshake _ => [mk_case "parse_tls_message_handshake" [] (one ++ suf) sx_msg (Some (suf, m))]
+            | MApplicationData _ => [mk_case "parse_tls_message_applicationdata" [] one sx_msg (Some ([], m))]
+            | MHeartbeat _ _ _ => [mk_case "parse_tls_message_heartbeat" [lenN one + lenN pad] (one ++ pad) (slist sx_msg) (Some (pad, [m]))]
+            end)
+  | [] => gret []
+  end.
+
+(* several records in one buffer, followed by nothing / a truncated record / an oversized header / garbage *)
+Definition grecord : G (list byte * TlsPlaintext) :=
+  do pl <- gpayload; let '(ct, msgs, pad) := pl in do ver <- gversion;
+  let payload := cat enc_msg msgs ++ pad in
+  gret (enc_record ct ver payload, mkPlain (mkHdr ct ver (lenN payload)) msgs).
+Definition gcase_multi : G (list case) :=
+  do n <- rnd 5; do recs <- glist (N.to_nat n) grecord;
+  do kind <- rnd 4;
+  do extra <- grecord;
+  do cut <- rnd (lenN (fst extra));
+  do g <- gsmall 12; do garbage <- gbytes g;
+  let tail := if kind =? 0 then [] else if kind =? 1 then takeN (fst extra) cut
+              else if kind =? 2 then u8 22 ++ u16 771 ++ u16 16641 ++ garbage else garbage in
+  let input := concat (map fst recs) ++ tail in
+  let expect := match recs with
+                | [] => None
+                | _ => if kind =? 3 then None else Some (tail, map snd recs)
+                end in
+  gret [ mk_case "tls_parser_many" [] input (slist sx_plain) expect;
+         mk_case "tls_parser" [] input sx_plain None;
+         mk_case "parse_tls_plaintext" [] input sx_plain None ].
+
 Definition families_tls : list (string * G (list case)) := [
   ("record", gcase_record); ("opaque", gcase_opaque); ("toolarge", gcase_toolarge);
-  ("handshake", gcase_handshake) ]%string.
+  ("handshake", gcase_handshake); ("message", gcase_message); ("multi", gcase_multi) ]%string.
